@@ -11,7 +11,7 @@ CONSTANTS
   MonthTicks = 4
   SaleChains = {1, 2, 3}
   Contracts = {1, 2}
-  MaxOps = 4
+  MaxOps = 3
   MaxNow = 16
 INIT Init2
 NEXT NextR
